@@ -2,7 +2,7 @@
 #![allow(non_snake_case)]
 use crate::common::*;
 use mccore::{int_leaf_paths, json_get, json_set, par_for, path_class, subsets, O};
-use rug::Integer;
+use rug::{Complete, Integer};
 use serde_json::{json, Value};
 use zkryptium::cl03::bases::Bases;
 use zkryptium::cl03::keys::{CL03CommitmentPublicKey, CL03PublicKey, CL03SecretKey};
@@ -34,7 +34,7 @@ where CL03<CS>: Scheme<PubKey = CL03PublicKey, PrivKey = CL03SecretKey>, CS::Has
     let worlds: Vec<World<CS>> = { let v = std::sync::Mutex::new(Vec::new()); par_for(&[0, 1], |_, _| { let w = World::<CS>::generate(maxn + 1); v.lock().unwrap().push(w); }); v.into_inner().unwrap() };
     let (w, other) = (&worlds[0], &worlds[1]);
     #[derive(Clone)]
-    enum Kind { Flow, Leaf(usize, usize), SignFlip, Shape }
+    enum Kind { Flow, Leaf(usize, usize), SignFlip, Shape, StatementSign }
     struct Root { id: String, n: usize, u: Vec<usize>, kind: Kind }
     let mut roots = Vec::new();
     for n in 1..=maxn { for u in subsets(n) { if n > 3 && !(u.len() <= 1 || u.len() >= n - 1) { continue; } roots.push(Root { id: format!("{}/n{}/hidden{:?}", CS::NAME, n, u), n, u, kind: Kind::Flow }); } }
@@ -44,6 +44,7 @@ where CL03<CS>: Scheme<PubKey = CL03PublicKey, PrivKey = CL03SecretKey>, CS::Has
     roots.push(Root { id: format!("{}/shape-edits/n3/hidden[0, 1]", CS::NAME), n: 3, u: vec![0, 1], kind: Kind::Shape });
     for (n, u) in classes { let nch = 16; for ch in 0..nch { roots.push(Root { id: format!("{}/leaf-edits/n{}/hidden{:?}/chunk{}", CS::NAME, n, u, ch), n, u: u.clone(), kind: Kind::Leaf(ch, nch) }); } }
     roots.push(Root { id: format!("{}/sign-flip/n2/hidden[1]", CS::NAME), n: 2, u: vec![1], kind: Kind::SignFlip });
+    roots.push(Root { id: format!("{}/statement-sign/n2/hidden[1]", CS::NAME), n: 2, u: vec![1], kind: Kind::StatementSign });
     env.ctx.set_rule("flows: n in 1..=3 (thorough 1..=5) x ALL subsets U of hidden positions (none, some, all), commitment key over the issuer modulus: sign_multiattr -> proof_gen(U) -> proof_verify(revealed, U, n) = true; statement edits (each => false, panic counts as refusal): each revealed attribute changed / dropped / duplicated, other signer key, other bases, other commitment key (other h, other g_i, own modulus, and every single field N / h / g_i altered alone), every single field of the signer key and every base altered alone, EVERY other hidden set U', n - 1, n + 1 and n + 2 (with and without extra revealed attributes). Leaf edits: EVERY integer leaf of the serialized proof +1 / -1 / zero / +N / sibling swap => false. Sign flips: every group-element leaf v := N - v, searched over a pool of 32 honest proofs => false. State = (flow, edit); non-trivial = the real verifier ran.");
     par_for(&roots, |_, r| {
         if !env.want(&r.id) || env.ctx.out_of_time() { return; }
@@ -77,6 +78,8 @@ where CL03<CS>: Scheme<PubKey = CL03PublicKey, PrivKey = CL03SecretKey>, CS::Has
                     let mut r4 = revealed.clone(); r4.remove(k); r4.push(Integer::from(7)); rej(format!("revealed[{}] removed (7 appended)", k), "revealed-attribute", &cpk, &w.pk, &bases, &r4, &r.u, n);
                     for k2 in (k + 1)..revealed.len() { let mut r5 = revealed.clone(); r5.swap(k, k2); rej(format!("revealed[{}] <-> revealed[{}]", k, k2), "revealed-attribute", &cpk, &w.pk, &bases, &r5, &r.u, n); }
                 }
+                // a longer revealed list: the verifier is told a value the credential does not contain
+                { let mut r6 = revealed.clone(); r6.push(Integer::from(7)); rej("one more revealed attribute (7) appended, same n".into(), "revealed-attribute", &cpk, &w.pk, &bases, &r6, &r.u, n); }
                 rej("other signer key".into(), "other-key", &cpk, &other.pk, &bases, &revealed, &r.u, n);
                 let pk_b = CL03PublicKey { N: w.pk.N.clone(), b: w.pk.c.clone(), c: w.pk.b.clone() }; rej("signer key with b and c swapped".into(), "other-key", &cpk, &pk_b, &bases, &revealed, &r.u, n);
                 let b2 = Bases(other.bases.0[..n].iter().map(|x| x.clone() % &w.pk.N).collect()); rej("other bases".into(), "other-bases", &cpk, &w.pk, &b2, &revealed, &r.u, n);
@@ -102,6 +105,37 @@ where CL03<CS>: Scheme<PubKey = CL03PublicKey, PrivKey = CL03SecretKey>, CS::Has
                 for (nm, f) in [("N", 0usize), ("b", 1), ("c", 2)] { let mut pk2 = w.pk.clone(); match f { 0 => pk2.N += 2u32, 1 => pk2.b += 1u32, _ => pk2.c += 1u32 }; rej(format!("signer key: {} altered", nm), "other-key", &cpk, &pk2, &bases, &revealed, &r.u, n); }
                 for bi in 0..n { let mut b4 = bases.clone(); b4.0[bi] += 1u32; rej(format!("bases: a_{} := a_{} + 1", bi, bi), "other-bases", &cpk, &w.pk, &b4, &revealed, &r.u, n); }
                 if n >= 1 { let u2: Vec<usize> = r.u.iter().copied().filter(|&i| i < n - 1).collect(); let rev2: Vec<Integer> = (0..n - 1).filter(|i| !u2.contains(i)).map(|i| m[i].clone()).collect(); if u2.len() == r.u.len() || !r.u.contains(&(n - 1)) { rej("n - 1".into(), "attribute-count", &cpk, &w.pk, &bases, &rev2, &u2, n - 1); } }
+                // a holder who deviates: (e, s, v * a_k^j) satisfies the verification equation for the attribute m_k + j*e, which was
+                // never signed (verify_multiattr refuses it because it is outside [0, 2^lm)); the proof generated from it must not be
+                // accepted for that revealed value either
+                { let sj = to_json(&_sig); let (e, s_, v) = (leaf_int(&sj["CL03"]["e"]).unwrap(), leaf_int(&sj["CL03"]["s"]).unwrap(), leaf_int(&sj["CL03"]["v"]).unwrap());
+                  for (k, pos) in (0..n).filter(|i| !r.u.contains(i)).enumerate() { for jmul in [1i32, -1] {
+                    let name = format!("cheating holder: revealed[{}] := m + ({})*e with v := v * a^({})", k, jmul, jmul);
+                    if !env.ctx.state(&[r.id.as_bytes(), name.as_bytes()]) { continue; }
+                    let v2 = (v.clone() * modpow(&bases.0[pos], &Integer::from(jmul), &w.pk.N)) % &w.pk.N;
+                    let mut m2 = m.clone(); m2[pos] += e.clone() * jmul;
+                    let forged: Option<Signature<CL03<CS>>> = from_json(&json!({"CL03": {"e": int_leaf(&e), "s": int_leaf(&s_), "v": int_leaf(&v2)}}));
+                    let proof = forged.and_then(|fs| mccore::guard_val(|| Pok::<CS>::proof_gen(fs.cl03Signature(), &cpk, &w.pk, &bases, &msgs(&m2), &r.u)).ok()); env.ctx.step();
+                    match proof { Some(q) => { let mut rev2 = revealed.clone(); rev2[k] = m2[pos].clone();
+                            let got = verify::<CS>(&q, &cpk, &w.pk, &bases, &rev2, &r.u, n);
+                            expect_bool(env, &r.id, &format!("proof_verify of a proof made from a shifted signature [{}]", name), &got, false, true, "cheating-holder:unsigned-revealed-attribute", json!({"base": det0, "edit": name})); env.ctx.class("cheating-holder:judged"); }
+                        None => env.ctx.class("cheating-holder:no-proof") }
+                    env.ctx.trace();
+                  } } }
+                // sub-proofs of ANOTHER honest proof (another credential, other attributes, same hidden set) put in place of this proof's
+                if !r.u.is_empty() {
+                    let m_o = distinct_attrs(seed, "c15-other-credential", n);
+                    if let O::Ok((_s2, q)) = honest::<CS>(w, n, &m_o, &r.u) {
+                        let (mut x, qj) = (to_json(&p), to_json(&q));
+                        for key in ["proofs_commited_mi", "range_proofs_commited_mi"] { x["CL03"][key] = qj["CL03"][key].clone(); }
+                        let name = "per-attribute sub-proofs and range proofs taken from a proof about another credential";
+                        if env.ctx.state(&[r.id.as_bytes(), name.as_bytes()]) {
+                            let got = match from_json::<Pok<CS>>(&x) { Some(z) => verify::<CS>(&z, &cpk, &w.pk, &bases, &revealed, &r.u, n), None => O::Ok(false) };
+                            expect_bool(env, &r.id, &format!("proof_verify with [{}]", name), &got, false, true, "sub-proof-transplant", json!({"base": det0, "edit": name}));
+                            env.ctx.class("sub-proof-transplant"); env.ctx.trace();
+                        }
+                    }
+                }
                 if n == 3 && r.u == vec![0, 2] { env.ctx.sample(json!({"root": r.id, "edits": "revealed attributes, keys, bases, commitment keys, every other hidden set, n +- 1"})); }
             }
             Kind::SignFlip => {
@@ -109,6 +143,26 @@ where CL03<CS>: Scheme<PubKey = CL03PublicKey, PrivKey = CL03SecretKey>, CS::Has
                 let pool: Vec<Value> = { let v = std::sync::Mutex::new(vec![to_json(&p)]); par_for(&(1..k).collect::<Vec<_>>(), |_, _| { if let O::Ok((_s, q)) = honest::<CS>(w, n, &m, &r.u) { v.lock().unwrap().push(to_json(&q)); } }); v.into_inner().unwrap() };
                 let res = sign_flip_search(&pool, &w.pk.N, &|_k, x| match from_json::<Pok<CS>>(x) { Some(q) => verify::<CS>(&q, &cpk, &w.pk, &bases, &revealed, &r.u, n), None => O::Ok(false) });
                 report_sign_flips(env, &r.id, "signature proof of knowledge", &res, pool.len(), det0.clone());
+            }
+            Kind::StatementSign => {
+                // the proof must not verify with a different signer key, bases or commitment key: here the ones that differ from the
+                // true ones only in sign (N - x), which an even exponent loses; a pool of honest proofs is searched per element
+                let k = if env.thorough() { 64 } else { 32 };
+                let pool: Vec<Pok<CS>> = { let v = std::sync::Mutex::new(vec![p.clone()]); par_for(&(1..k).collect::<Vec<_>>(), |_, _| { if let O::Ok((_s, q)) = honest::<CS>(w, n, &m, &r.u) { v.lock().unwrap().push(q); } }); v.into_inner().unwrap() };
+                let nn = &w.pk.N;
+                let mut variants: Vec<(String, CL03CommitmentPublicKey, CL03PublicKey, Bases)> = Vec::new();
+                for i in 0..n { let mut b = bases.clone(); b.0[i] = (nn - &b.0[i]).complete(); variants.push((format!("a_{} := N - a_{}", i, i), cpk.clone(), w.pk.clone(), b)); }
+                for i in 0..n { let mut c = cpk.clone(); c.g_bases[i] = (&c.N - &c.g_bases[i]).complete(); variants.push((format!("g_{} := N - g_{}", i, i), c, w.pk.clone(), bases.clone())); }
+                { let mut c = cpk.clone(); c.h = (&c.N - &c.h).complete(); variants.push(("h := N - h".into(), c, w.pk.clone(), bases.clone())); }
+                { let mut k2 = w.pk.clone(); k2.b = (nn - &k2.b).complete(); variants.push(("b := N - b".into(), cpk.clone(), k2, bases.clone())); }
+                { let mut k2 = w.pk.clone(); k2.c = (nn - &k2.c).complete(); variants.push(("c := N - c".into(), cpk.clone(), k2, bases.clone())); }
+                for (nm, c2, k2, b2) in &variants {
+                    env.ctx.state(&[r.id.as_bytes(), nm.as_bytes()]);
+                    let mut hit = None;
+                    for (i, q) in pool.iter().enumerate() { env.ctx.step(); if accepted(&verify::<CS>(q, c2, k2, b2, &revealed, &r.u, n)) { hit = Some(i); break; } }
+                    if let Some(i) = hit { env.ctx.violation(&format!("C15:binding:statement-sign:{}:accepted", nm.split(' ').next().unwrap_or("").trim_end_matches(|c: char| c.is_ascii_digit())), &format!("an honest proof (#{} of a pool of {}) verifies with [{}]", i, pool.len(), nm), env.case(&r.id, json!({"base": det0, "edit": nm, "pool": pool.len()}))); }
+                    env.ctx.class(if hit.is_some() { "statement-sign:accepted" } else { "statement-sign:rejected" }); env.ctx.trace();
+                }
             }
             Kind::Shape => {
                 let j = to_json(&p);
